@@ -78,8 +78,9 @@ func NewPAT(patBytes []byte) (PAT, error) {
 // NumPrograms returns the number of programs in this PAT
 func (pat pat) NumPrograms() int {
 	sectionLength := int(SectionLength(pat))
-	if len(pat[:]) < sectionLength {
-		sectionLength = len(pat[:])
+	// the pointer_field filler precedes the section and is not part of it
+	if avail := len(pat[:]) - int(PointerField(pat)); avail < sectionLength {
+		sectionLength = avail
 	}
 	numPrograms := int((sectionLength -
 		2 - // Transport Stream ID
@@ -95,7 +96,7 @@ func (pat pat) NumPrograms() int {
 func (pat pat) ProgramMap() map[int]int {
 	m := make(map[int]int)
 
-	counter := 8 // skip table id et al
+	counter := 8 + int(PointerField(pat)) // skip pointer_field filler, table id et al
 
 	for i := 0; i < pat.NumPrograms(); i++ {
 		pn := (int(pat[counter+1]) << 8) | int(pat[counter+2])
